@@ -57,6 +57,10 @@ type HarnessResult struct {
 	Steps       int            `json:"ssa_steps"`
 	Assumptions int            `json:"assumptions"`
 	Abstraction string         `json:"abstraction,omitempty"`
+	// Reduced: the registered (thorough) bounds could not be decided in the budget (solver timeout / unknown /
+	// execution or solving budget); the harness was decided again at the fallback (quick) bounds. The verdict
+	// then only holds for those smaller bounds, which are recorded here.
+	Reduced string `json:"reduced_bound,omitempty"`
 }
 
 type Loaded struct {
@@ -163,6 +167,7 @@ type RunOpts struct {
 	Conc        bool
 	RunInit     bool // execute the package's variable initialisers before the harness
 	Filter2     *regexp.Regexp
+	Fallback    *Bounds // thorough tier: bounds to retry with when the main bounds end in a timeout/budget verdict
 }
 
 func runHarnesses(ld *Loaded, opts RunOpts) []HarnessResult {
@@ -211,6 +216,20 @@ func runHarnesses(ld *Loaded, opts RunOpts) []HarnessResult {
 }
 
 func runOne(ld *Loaded, fn *ssa.Function, opts RunOpts, pool *Pool) (res HarnessResult) {
+	if opts.Fallback != nil {
+		o := opts
+		o.Fallback = nil
+		first := runOne(ld, fn, o, pool)
+		if first.Status != "inconclusive" || !(strings.Contains(first.Detail, "timeout") || strings.Contains(first.Detail, "unknown") || strings.Contains(first.Detail, "budget")) {
+			return first
+		}
+		o.Bounds = *opts.Fallback
+		second := runOne(ld, fn, o, pool)
+		second.ExecMs += first.ExecMs
+		second.SolveMs += first.SolveMs
+		second.Reduced = fmt.Sprintf("undecided at %+v (%s); decided at %+v", opts.Bounds, first.Detail, *opts.Fallback)
+		return second
+	}
 	if opts.AbstractMul {
 		a := runOneMode(ld, fn, opts, pool, true)
 		if a.Status == "ok" {
